@@ -1,6 +1,240 @@
-(* C11 — theorems being added *)
+(* C11 — verified blocks extend their parent correctly.
+
+   Model: Model/Chain.v [execute_block] (chain/processor.go: Processor.Execute with createBlockContext,
+   verifyParentRoot, writeBlockContext), tied to the Go code by Check/C11_check.v (= Chain_check.check_case).
+   Histories: Model/ChainHistory.v ([next_parent], [run_chain]).  Proofs: Proofs/Header_proofs.v.
+
+   In the model (as in the code) the parent's height and timestamp are the values stored in the parent
+   STATE ([p_height], [p_ts]); "not more than the future bound ahead of local time" is the driver-set flag
+   [b_too_late]; "recorded state root = parent's post-state root" is the flag [b_root_ok] (the driver crafts
+   blocks with a right / wrong root; merkledb itself is in the trusted base); [b_fail_key] is the harness'
+   fault injection (a failing database read), excluded where stated.
+
+   STATUS.  Full for every parent whose state timestamp is its header timestamp — every block produced by
+   Processor.Execute (C11_state_ts_is_header_ts), hence every chain not starting at genesis
+   (C11_monotone_partial, C11_child_of_executed_block_partial).  REFUTED for the genesis block: its header
+   carries 2023-01-01 while its state records timestamp 0, and children are compared with the state value
+   (C11_genesis_refuted; known finding "child-of-genesis-checked-against-state-timestamp-0").
+
+   Full intended statement (not provable, see C11_genesis_refuted):
+     forall chain g :: b1 :: ... :: bn of verified blocks starting at the genesis block g,
+       ts(g) + gap <= ts(b1) and ts(b_i) + gap <= ts(b_{i+1}), heights increase by one. *)
 From stdpp Require Import gmap.
-From HV Require Import Model.Keys Model.Tstate Model.Fees Model.Chain.
-Theorem C11_placeholder_too_late : forall r mk p b, b_too_late b = true -> execute_block r mk p b = inr (clsTooLate, 0%N).
-Proof. intros r mk p b H. unfold execute_block. rewrite H. reflexivity. Qed.
-Print Assumptions C11_placeholder_too_late.
+From Coq Require Import NArith ZArith Lia.
+From HV Require Import Lib.Bytes Lib.U64 Model.Keys Model.Tstate Model.Fees Model.Chain Model.Genesis
+                       Model.ChainHistory Proofs.Header_proofs.
+From HV Require Check.Chain_check Check.C11_check.
+Local Open Scope N_scope.
+
+(* "A block verifies ONLY IF ...": every accepted block (fault injection or not) has parent-state height + 1,
+   is at least the minimum gap (the empty-block gap without transactions) after the parent-state timestamp,
+   is not beyond the future bound, records the parent's root; and the state it leaves records its own height
+   and timestamp. *)
+Theorem C11_verified_extends_parent : forall r mk p b o,
+  execute_block r mk p b = inl o ->
+  b_too_late b = false
+  /\ (exists ph, p_height p = Some ph /\ b_height b = ph + 1)
+  /\ (Z.of_N (p_ts p) + r_min_gap r <= b_ts b)%Z
+  /\ (b_txs b = [] -> (Z.of_N (p_ts p) + r_min_empty_gap r <= b_ts b)%Z)
+  /\ b_root_ok b = true
+  /\ o_height o = b_height b /\ o_ts o = Z.to_N (b_ts b mod Z.of_N W64)%Z.
+Proof.
+  intros r mk p b o H. destruct (accepted_header_ok r mk p b o H) as ([(H1 & H2 & H3 & H4) H5] & _ & H6 & H7).
+  repeat split; assumption.
+Qed.
+Print Assumptions C11_verified_extends_parent.
+
+(* Classification: each failing condition gives its own error class, in the order of the code, whatever
+   the rest of the block contains (no injected read fault). *)
+Theorem C11_header_classification : forall r mk p b, b_fail_key b = None ->
+  (b_too_late b = true -> execute_block r mk p b = inr (clsTooLate, 0))
+  /\ (b_too_late b = false -> p_height p = None -> execute_block r mk p b = inr (clsFetchHeight, 0))
+  /\ (forall ph, b_too_late b = false -> p_height p = Some ph ->
+      (b_height b <> ph + 1 -> execute_block r mk p b = inr (clsBadHeight, 0))
+      /\ (b_height b = ph + 1 ->
+          ((b_ts b < Z.of_N (p_ts p) + r_min_gap r)%Z -> execute_block r mk p b = inr (clsTooEarly, 0))
+          /\ ((Z.of_N (p_ts p) + r_min_gap r <= b_ts b)%Z -> b_txs b = [] ->
+              (b_ts b < Z.of_N (p_ts p) + r_min_empty_gap r)%Z ->
+              execute_block r mk p b = inr (clsTooEarlyEmpty, 0))))
+  /\ (pre_header_ok r p b -> body_runs r p b -> b_root_ok b = false ->
+      execute_block r mk p b = inr (clsRootMismatch, 0))
+  /\ (forall sub, execute_block r mk p b = inr (clsRootMismatch, sub) -> b_root_ok b = false).
+Proof.
+  intros r mk p b Hnf.
+  split. { intros H. apply pre_class_Some; [exact Hnf|]. unfold pre_class. rewrite H. reflexivity. }
+  split. { intros H1 H2. apply pre_class_Some; [exact Hnf|]. unfold pre_class. rewrite H1, H2. reflexivity. }
+  split.
+  { intros ph H1 H2. split.
+    - intros Hh. apply pre_class_Some; [exact Hnf|]. unfold pre_class. rewrite H1, H2.
+      destruct (N.eqb_spec (b_height b) (ph + 1)); [contradiction | reflexivity].
+    - intros Hh. split.
+      + intros Ht. apply pre_class_Some; [exact Hnf|]. unfold pre_class. rewrite H1, H2.
+        destruct (N.eqb_spec (b_height b) (ph + 1)); [|contradiction]. cbn [negb].
+        destruct (Z.ltb_spec (b_ts b) (Z.of_N (p_ts p) + r_min_gap r)); [reflexivity | lia].
+      + intros Ht Hnil Hte. apply pre_class_Some; [exact Hnf|]. unfold pre_class. rewrite H1, H2, Hnil.
+        destruct (N.eqb_spec (b_height b) (ph + 1)); [|contradiction]. cbn [negb andb].
+        destruct (Z.ltb_spec (b_ts b) (Z.of_N (p_ts p) + r_min_gap r)); [lia|].
+        destruct (Z.ltb_spec (b_ts b) (Z.of_N (p_ts p) + r_min_empty_gap r)); [reflexivity | lia]. }
+  split; [apply root_mismatch_class, Hnf | intros sub; apply root_mismatch_only_if].
+Qed.
+Print Assumptions C11_header_classification.
+
+(* The pre-execution conditions hold IFF the outcome is none of the five pre-execution header classes ... *)
+Theorem C11_pre_header_iff : forall r mk p b, b_fail_key b = None ->
+  (b_too_late b = false
+   /\ (exists ph, p_height p = Some ph /\ b_height b = ph + 1)
+   /\ (Z.of_N (p_ts p) + r_min_gap r <= b_ts b)%Z
+   /\ (b_txs b = [] -> (Z.of_N (p_ts p) + r_min_empty_gap r <= b_ts b)%Z))
+  <-> ~ class_in [clsTooLate; clsFetchHeight; clsBadHeight; clsTooEarly; clsTooEarlyEmpty] (execute_block r mk p b).
+Proof. exact pre_header_iff. Qed.
+Print Assumptions C11_pre_header_iff.
+
+(* ... and, for a block whose transactions execute (the root is compared after execution), ALL the header
+   conditions hold IFF the outcome is none of the six header classes. *)
+Theorem C11_header_iff : forall r mk p b, b_fail_key b = None -> body_runs r p b ->
+  ((b_too_late b = false
+    /\ (exists ph, p_height p = Some ph /\ b_height b = ph + 1)
+    /\ (Z.of_N (p_ts p) + r_min_gap r <= b_ts b)%Z
+    /\ (b_txs b = [] -> (Z.of_N (p_ts p) + r_min_empty_gap r <= b_ts b)%Z))
+   /\ b_root_ok b = true)
+  <-> ~ class_in [clsTooLate; clsFetchHeight; clsBadHeight; clsTooEarly; clsTooEarlyEmpty; clsRootMismatch]
+                 (execute_block r mk p b).
+Proof. exact header_iff. Qed.
+Print Assumptions C11_header_iff.
+
+(* writeBlockContext: the state left by a verified block records the block's own header height and
+   timestamp (timestamps are int64 in the code, so below 2^64; non-negative gap = rules' MinBlockGap). *)
+Theorem C11_state_ts_is_header_ts : forall r mk p b o,
+  execute_block r mk p b = inl o -> (0 <= r_min_gap r)%Z -> (b_ts b < Z.of_N W64)%Z ->
+  p_height (next_parent p o) = Some (b_height b) /\ Z.of_N (p_ts (next_parent p o)) = b_ts b.
+Proof. exact next_parent_meta. Qed.
+Print Assumptions C11_state_ts_is_header_ts.
+
+(* The property in terms of the parent BLOCK, for every parent block that was itself executed by the
+   processor (i.e. every block except genesis, which is created by NewGenesisCommit): its verified children
+   have its height + 1, are at least the gap after ITS HEADER timestamp, are not too late and record the
+   right root.  The guard excludes exactly the known finding. *)
+Theorem C11_child_of_executed_block_partial : forall r mk p a oa b ob,
+  (0 <= r_min_gap r)%Z -> (b_ts a < Z.of_N W64)%Z ->
+  execute_block r mk p a = inl oa ->
+  execute_block r mk (next_parent p oa) b = inl ob ->
+  b_height b = b_height a + 1
+  /\ (b_ts a + r_min_gap r <= b_ts b)%Z
+  /\ (b_txs b = [] -> (b_ts a + r_min_empty_gap r <= b_ts b)%Z)
+  /\ b_too_late b = false /\ b_root_ok b = true.
+Proof.
+  intros r mk p a oa b ob Hgap Hta Ha Hb.
+  destruct (next_parent_meta r mk p a oa Ha Hgap Hta) as [Mh Mt].
+  destruct (execute_block_inv _ _ _ _ _ Hb) as (H1 & (ph & Hph & Hh) & H3 & H4 & H5 & _).
+  rewrite Mh in Hph. inversion Hph; subst ph. rewrite Mt in H3, H4. auto.
+Qed.
+Print Assumptions C11_child_of_executed_block_partial.
+
+(* Along any chain of verified blocks a :: bs executed from ANY state p (the first block a is compared with
+   p's state values: C11_verified_extends_parent), every later block extends its predecessor's HEADER:
+   heights increase by exactly one and timestamps are at least the gaps apart; in particular timestamps
+   never decrease and heights strictly increase along the chain. *)
+Theorem C11_monotone_partial : forall r mk p a oa bs res,
+  (0 <= r_min_gap r)%Z -> Forall (fun b => (b_ts b < Z.of_N W64)%Z) (a :: bs) ->
+  execute_block r mk p a = inl oa ->
+  run_chain r mk (next_parent p oa) bs = Some res ->
+  linked r a bs
+  /\ Forall (fun b => (b_ts a <= b_ts b)%Z /\ b_height a < b_height b) bs.
+Proof.
+  intros r mk p a oa bs res Hgap Hts Ha Hrun.
+  pose proof (chain_linked r mk Hgap bs p a oa res Hts Ha Hrun) as Hl.
+  split; [exact Hl | apply (linked_sorted r a bs Hgap Hl)].
+Qed.
+Print Assumptions C11_monotone_partial.
+
+(* ---------------------------------------------------------------- the genesis block: refuted *)
+
+(* chain/genesis.go: NewGenesisCommit gives the genesis block the timestamp 2023-01-01T00:00:00Z (ms) *)
+Definition genesis_header_ts : Z := 1672531200000.
+
+Definition ex_rules : rules :=
+  mkRules 100 750 [1; 1; 1; 1; 1] [48; 48; 48; 48; 48] [1000; 1000; 1000; 1000; 1000]
+          [1000000; 1000000; 1000000; 1000000; 1000000] 60000 16 1 5 2 20 5 10 3.
+Definition ex_mk : meta_keys := mkMeta [0; 0; 1] [1; 0; 1] [2; 0; 8].
+Definition keyA : key := [0; 65; 0; 1].
+Definition keyB : key := [0; 66; 0; 1].
+
+(* A child of the genesis state of Model/Genesis.v with timestamp 1000 ms (1970) is verified although the
+   genesis header timestamp is 2023-01-01: the parent timestamp is read from the genesis STATE, which records 0. *)
+Theorem C11_genesis_refuted : exists r mk min_price allocs m p b o,
+  genesis_state mk min_price allocs = Some m
+  /\ parent_of_state mk (omap id m) = Some p
+  /\ p_height p = Some 0 /\ p_ts p = 0
+  /\ execute_block r mk p b = inl o
+  /\ b_height b = 1 /\ (b_ts b < genesis_header_ts)%Z.
+Proof.
+  exists ex_rules, ex_mk, [1; 1; 1; 1; 1], [(keyA, 1000)].
+  eexists. eexists. exists (mkBlock 1000 1 true false false None []). eexists.
+  split; [vm_compute; reflexivity|]. split; [vm_compute; reflexivity|].
+  split; [reflexivity|]. split; [reflexivity|]. split; [vm_compute; reflexivity|].
+  split; [reflexivity | reflexivity].
+Qed.
+Print Assumptions C11_genesis_refuted.
+
+(* The same witness as a case of the correspondence check: the model (hence, by the check, the Go code)
+   accepts, while the property evaluated with the parent block's HEADER timestamp (C11_check.header_ok) fails. *)
+Definition ex_genesis_case : Chain_check.case :=
+  Chain_check.mkCase [(keyA, be64 1000)] 0 0 (Z.to_N genesis_header_ts) (mkFee 0 [1; 1; 1; 1; 1] [] []) false
+                   ex_rules 1000 1 true false false None [] [keyA] [[0; 0; 1]; [1; 0; 1]; [2; 0; 8]] [].
+
+Theorem C11_genesis_refuted_checker :
+  Chain_check.c_parent_h ex_genesis_case = 0 /\ Chain_check.c_parent_ts ex_genesis_case = 0
+  /\ Z.of_N (Chain_check.c_parent_block_ts ex_genesis_case) = genesis_header_ts
+  /\ (exists o, Chain_check.model_out ex_genesis_case = inl o)
+  /\ C11_check.header_ok ex_genesis_case = false.
+Proof.
+  split; [reflexivity|]. split; [reflexivity|]. split; [reflexivity|].
+  split; [eexists; vm_compute; reflexivity | vm_compute; reflexivity].
+Qed.
+Print Assumptions C11_genesis_refuted_checker.
+
+(* ---------------------------------------------------------------- non-vacuity *)
+
+Definition ex_parent : parent_state :=
+  mkParent {[ keyA := be64 100000 ]} (Some 5) 500 (mkFee 0 [1; 1; 1; 1; 1] [] []).
+
+Definition ex_tx : tx :=
+  mkTx 2000 true 1000 keyA true 1 (-1) (-1) 100 true
+       [mkAction 1 [(keyA, 5); (keyB, 7)] [OTransfer keyA keyB 5 true] (-1) (-1)].
+
+Definition ex_b1 : block := mkBlock 1000 6 true false false None [ex_tx].
+Definition ex_b2 : block := mkBlock 1100 7 true false false None [ex_tx].
+Definition ex_b3 : block := mkBlock 1850 8 true false false None [].
+
+(* an accepted block with a transaction (hypothesis of C11_verified_extends_parent / C11_state_ts_is_header_ts) *)
+Example C11_accept_nonvacuous : exists o, execute_block ex_rules ex_mk ex_parent ex_b1 = inl o
+  /\ (0 <= r_min_gap ex_rules)%Z /\ (b_ts ex_b1 < Z.of_N W64)%Z.
+Proof. eexists. split; [vm_compute; reflexivity|]. split; [cbn; lia | reflexivity]. Qed.
+
+(* a three-block chain (hypotheses of C11_monotone_partial and C11_child_of_executed_block_partial) *)
+Example C11_chain_nonvacuous : exists oa res,
+  execute_block ex_rules ex_mk ex_parent ex_b1 = inl oa
+  /\ run_chain ex_rules ex_mk (next_parent ex_parent oa) [ex_b2; ex_b3] = Some res.
+Proof. eexists. eexists. split; vm_compute; reflexivity. Qed.
+
+(* body_runs and the absence of faults (hypotheses of C11_header_iff): a block with a good header and one
+   with a wrong root, both executing their transaction *)
+Example C11_header_iff_nonvacuous :
+  b_fail_key ex_b1 = None /\ body_runs ex_rules ex_parent ex_b1
+  /\ body_runs ex_rules ex_parent (mkBlock 1000 6 false false false None [ex_tx])
+  /\ execute_block ex_rules ex_mk ex_parent (mkBlock 1000 6 false false false None [ex_tx]) = inr (clsRootMismatch, 0).
+Proof.
+  split; [reflexivity|].
+  split. { split; [reflexivity|]. do 4 eexists. split; vm_compute; reflexivity. }
+  split. { split; [reflexivity|]. do 4 eexists. split; vm_compute; reflexivity. }
+  vm_compute. reflexivity.
+Qed.
+
+(* every class of C11_header_classification is reachable *)
+Example C11_classes_nonvacuous :
+  execute_block ex_rules ex_mk ex_parent (mkBlock 1000 6 true true false None [ex_tx]) = inr (clsTooLate, 0)
+  /\ execute_block ex_rules ex_mk (mkParent ∅ None 500 zero_mgr) ex_b1 = inr (clsFetchHeight, 0)
+  /\ execute_block ex_rules ex_mk ex_parent (mkBlock 1000 7 true false false None [ex_tx]) = inr (clsBadHeight, 0)
+  /\ execute_block ex_rules ex_mk ex_parent (mkBlock 599 6 true false false None [ex_tx]) = inr (clsTooEarly, 0)
+  /\ execute_block ex_rules ex_mk ex_parent (mkBlock 1249 6 true false false None []) = inr (clsTooEarlyEmpty, 0).
+Proof. vm_compute. auto. Qed.
